@@ -93,7 +93,8 @@ class MATCHConv2d(nn.Conv2d, MATCHModule):
             self.s_y = torch.tensor(1., device=self.device)
             self.skip_requant = True
 
-        # Copy and integerize pretrained biases
+        # Copy and integerize pretrained biases (a missing bias is an all-zero one)
+        int_bias = torch.zeros(self.out_channels, device=self.device)
         with torch.no_grad():
             if conv.bias is not None:
                 self.b_quantizer.dequantize = False
@@ -111,7 +112,7 @@ class MATCHConv2d(nn.Conv2d, MATCHModule):
                     self.bias = cast(torch.Tensor, self.bias)
                     self.bias.copy_(int_bias)
             else:
-                self.add_bias = None
+                self.add_bias = torch.zeros((1, self.out_channels, 1, 1), device=self.device)
 
         # Done here to avoid the reshape op in fwd
         self.scale = self.scale.view(1, self.out_channels, 1, 1)
@@ -121,11 +122,12 @@ class MATCHConv2d(nn.Conv2d, MATCHModule):
         if maybe_pad_dil:
             pad_dim = 0 if self.dilation[0] != 1 else 1
             with torch.no_grad():
-                padded_weights = self._pad_dilation_in_weight(self.dilation[0], self.kernel_size[0], pad_dim)
+                padded_weights = self._pad_dilation_in_weight(self.dilation[pad_dim],
+                                                              self.kernel_size[pad_dim], pad_dim)
                 self.weight.data = padded_weights
-            self.dilation = (1, 1)
             self.kernel_size = (self.kernel_size[0] * self.dilation[0] - (self.dilation[0] - 1),
                                 self.kernel_size[1] * self.dilation[1] - (self.dilation[1] - 1))
+            self.dilation = (1, 1)
 
     def forward(self, input: torch.Tensor) -> torch.Tensor:
         """The forward function of integer conv2d layer.
@@ -308,5 +310,5 @@ class MATCHConv2d(nn.Conv2d, MATCHModule):
                     if pad_dim == 0:
                         padded_weights[c_out, c_in, i * dilation] = self.weight[c_out, c_in, i]
                     else:
-                        padded_weights[c_out, c_in, 0, i * dilation] = self.weight[c_out, c_in, i]
+                        padded_weights[c_out, c_in, 0, i * dilation] = self.weight[c_out, c_in, 0, i]
         return padded_weights
